@@ -59,6 +59,38 @@ def Space.add (a b : Space) : Space := ⟨a.head + b.head, a.proc + b.proc⟩
 abbrev Rate := Nat
 abbrev Swr := Int → Rate → Int
 
+/-- keep one occurrence of every element (the last one); used to turn an arbitrary schedule list
+    into an iteration order that visits every map key once -/
+def uniq : List Hash → List Hash
+  | [] => []
+  | h :: hs => if (uniq hs).contains h then uniq hs else h :: uniq hs
+
+theorem uniq_nodup : ∀ l : List Hash, (uniq l).Nodup
+  | [] => List.nodup_nil
+  | h :: hs => by
+    unfold uniq
+    split
+    · exact uniq_nodup hs
+    · rename_i hc
+      refine List.nodup_cons.mpr ⟨?_, uniq_nodup hs⟩
+      simpa using hc
+
+theorem mem_uniq {l : List Hash} {x : Hash} : x ∈ uniq l ↔ x ∈ l := by
+  induction l generalizing x with
+  | nil => simp [uniq]
+  | cons h hs ih =>
+    unfold uniq
+    split
+    · rename_i hc
+      have : h ∈ hs := ih.mp (by simpa using hc)
+      constructor
+      · intro hx; exact List.mem_cons_of_mem _ (ih.mp hx)
+      · intro hx
+        rcases List.mem_cons.mp hx with rfl | hx
+        · exact ih.mpr this
+        · exact ih.mpr hx
+    · simp [ih]
+
 /-! ### association lists: the model of a Go `map[uint64]*T` -/
 
 abbrev AL (α : Type) := List (Hash × α)
